@@ -61,6 +61,7 @@ enum {
     F_INVALID_UTF8_BYTES,
     F_ITERATE_EARLY_STOP,
     F_SWEEP,
+    F_OPS_ON_DUPLICATE,
     F_NFLAGS
 };
 static const char *s_flag_names[F_NFLAGS] = {
@@ -71,7 +72,7 @@ static const char *s_flag_names[F_NFLAGS] = {
     "case_variant_lookup", "object_member_removed", "array_remove_first", "array_remove_middle", "array_remove_last",
     "array_index_eq_size", "array_index_beyond_size", "absent_key_lookup", "deep_chain_ge_500", "print_buffer_grew_gt_256",
     "text_tree_duplicate_keys", "compare_duplicate_checked", "strings_with_invalid_utf8", "iterate_early_stop",
-    "sweep_case"};
+    "sweep_case", "container_ops_on_a_duplicate"};
 
 #define MAX_DEPTH 8
 #define OBJDEPTH_COMPARE_LIMIT 10 /* cJSON_Compare visits nested objects 2^depth times (see report) */
@@ -2108,6 +2109,8 @@ static void note_reader_stats(const struct rd *st) {
 }
 
 /* L is the library tree, M the generating tree (its numbers are what L must hold exactly) */
+static void containers_of(struct mnode *m, struct mnode ***list, size_t *n, size_t *cap);
+
 static bool roundtrip(struct aws_json_value *L, const struct mnode *M, const char *origin, struct mon_rng *r) {
     bool ok = true;
     struct sbuf out[2] = {{0}, {0}};
@@ -2171,8 +2174,8 @@ static bool roundtrip(struct aws_json_value *L, const struct mnode *M, const cha
         return false;
     }
     struct mnode *dm = extract(D);
-    ok = model_cmp(M, dm, CMP_EXACT, "duplicate") && ok;
-    mn_free(dm);
+    bool dup_same = model_cmp(M, dm, CMP_EXACT, "duplicate");
+    ok = dup_same && ok;
     if (mn_objdepth(M) <= OBJDEPTH_COMPARE_LIMIT) {
         mon_flag(F_COMPARE_DUPLICATE);
         for (int cs = 0; cs < 2; ++cs) {
@@ -2193,6 +2196,30 @@ static bool roundtrip(struct aws_json_value *L, const struct mnode *M, const cha
     } else {
         mon_count("compare_skipped_object_depth_gt_10", 1);
     }
+    /* a duplicate is a value tree like any other: object and array access on it must be coherent too (add / get /
+     * has / remove on one of its containers, checked against the model extracted from the duplicate) */
+    if (dup_same && ok && mn_depth(dm) < MAX_DEPTH - 2 && mon_chance(r, 3, 4)) {
+        struct mnode **list = NULL;
+        size_t n = 0, cap = 0;
+        containers_of(dm, &list, &n, &cap);
+        if (n) {
+            /* prefer small containers: empty and one-member containers are where list surgery goes wrong */
+            struct mnode *c = list[mon_below(r, n)];
+            for (int tries = 0; tries < 3 && c->n > 1; ++tries) {
+                struct mnode *c2 = list[mon_below(r, n)];
+                if (c2->n < c->n) {
+                    c = c2;
+                }
+            }
+            struct budget bg = {6, MAX_DEPTH};
+            mon_flag(F_OPS_ON_DUPLICATE);
+            mon_sample(" ops-on-duplicate:");
+            container_ops(r, c->lib, c, &bg, MAX_DEPTH - 2, 1 + (size_t)mon_below(r, 4), true);
+            mon_count("container_ops_on_duplicates", 1);
+        }
+        free(list);
+    }
+    mn_free(dm);
     aws_json_value_destroy(D);
     return ok;
 }
